@@ -1,9 +1,9 @@
 ---------------------------- MODULE MC_CifLexer ----------------------------
 EXTENDS CifLexer, TLC
-(*  _  #  $  ;  [  ]  '  "  SP  HT  LF  a  *)
-MC_Alphabet == {95, 35, 36, 59, 91, 93, 39, 34, 32, 9, 10, 97}
+(*  _  #  $  ;  [  ]  '  "  SP  HT  LF  CR  a  *)
+MC_Alphabet == {95, 35, 36, 59, 91, 93, 39, 34, 32, 9, 10, 13, 97}
 
-(* constant-level checks that the 12-symbol alphabet cannot reach: reserved words *)
+(* constant-level checks that the 13-symbol alphabet cannot reach: reserved words *)
 Words == { KwData, KwData \o <<120>>, <<68, 65, 84, 65, 95, 120>>, KwSave, KwSave \o <<120>>,
            KwLoop, <<76, 79, 79, 80, 95>>, KwStop, KwGlobal, <<71, 108, 111, 98, 97, 108, 95>> }
 ASSUME \A w \in Words :
@@ -20,6 +20,12 @@ ASSUME Lex(<<HASH, SP, 97, CR, LF, US, 98, SP, 99, LF>>).t = << [k |-> "tag", s 
 ASSUME \A c \in { <<97, CR, 98>>, <<97, CR, LF, US, 98, SP, 99>>, <<CR>>, <<97, CR, CR, 98, LF>>, <<CR, LF, 108, 111, 111, 112, 95>> } :
          LET r == Lex(CommentLinesAnyBreak(c) \o TagT \o <<SP>> \o ValZ \o <<LF>>) IN
          r.e = "" /\ r.t = << [k |-> "tag", s |-> <<116>>], [k |-> "val", s |-> ValZ] >>
-(* non-ASCII and control characters are errors *)
-ASSUME Lex(<<97, 181>>).e = "non_ascii_character" /\ Lex(<<97, 13>>).e = "control_character"
+(* a CR is a line terminator everywhere: it ends an unquoted value, breaks a quoted string, is a line break of a
+   text field (read as LF, CR LF counted once) and CR ';' closes a text field *)
+ASSUME Lex(<<US, 116, SP, 97, CR, US, 117, SP, 98>>).t = << [k |-> "tag", s |-> <<116>>], [k |-> "val", s |-> <<97>>], [k |-> "tag", s |-> <<117>>], [k |-> "val", s |-> <<98>>] >>
+ASSUME Lex(<<SQ, 97, CR, 98, SQ>>).e = "eol_in_quoted_string"
+ASSUME Lex(<<SEMI, 97, CR, LF, 98, CR, SEMI, LF>>) = [t |-> << [k |-> "val", s |-> <<97, LF, 98>>] >>, e |-> ""]
+ASSUME Lex(<<SEMI, 97, CR, 98, LF, SEMI, LF>>).t = << [k |-> "val", s |-> <<97, LF, 98>>] >>
+(* non-ASCII and the other control characters are errors *)
+ASSUME Lex(<<97, 181>>).e = "non_ascii_character" /\ Lex(<<97, 7>>).e = "control_character"
 =============================================================================
